@@ -311,8 +311,13 @@ class _Dialect(type):
         gen_cls = klass.generator_class
         supported = getattr(gen_cls, "SUPPORTED_JSON_PATH_PARTS", None)
         if isinstance(supported, set):
-            for part in ALL_JSON_PATH_PARTS - supported:
-                gen_cls.TRANSFORMS.pop(part, None)
+            unsupported = ALL_JSON_PATH_PARTS - supported
+            if any(part in gen_cls.TRANSFORMS for part in unsupported):
+                # Rebind a filtered copy instead of popping in place: another thread may be iterating
+                # over this dict right now (e.g. a generator class body doing {**Base.TRANSFORMS, ...})
+                gen_cls.TRANSFORMS = {
+                    k: v for k, v in gen_cls.TRANSFORMS.items() if k not in unsupported
+                }
 
         klass.QUOTE_START, klass.QUOTE_END = list(klass.tokenizer_class._QUOTES.items())[0]
         klass.IDENTIFIER_START, klass.IDENTIFIER_END = list(
